@@ -68,8 +68,8 @@ content". -/
 theorem leaf_partition {κ ν : Type} [BEq κ] [BEq ν] [Inhabited κ] {cmp : κ → κ → Ordering}
     (hc : TotalPreorder cmp) (leaves : List (NodeH κ ν 0)) (es : Edits κ ν) (hne : leaves ≠ [])
     (hleaf : ∀ l ∈ leaves, l ≠ []) (hs : Sorted cmp (leaves.flatten : List (κ × ν))) :
-    ((leafRegions cmp leaves es false).flatMap (·.new) : List (κ × ν)) = applyEdits cmp leaves.flatten es :=
-  leafRegions_content hc leaves es false hne hleaf hs
+    ((leafRegions cmp leaves es false true).flatMap (·.new) : List (κ × ν)) = applyEdits cmp leaves.flatten es :=
+  leafRegions_content hc leaves es false true hne hleaf hs
 
 /-- **History independence at one level.**  Two edit histories over possibly different old node
 lists (different ancestors, different batching, different resync points) that arrive at the same
